@@ -383,6 +383,15 @@ def bounded(rep, tier, known_pairs):
         d = lrtab.load(dname)
         optoks = [t for t in LVL if t in d.terminals]
         ctxs = ['select-list', 'where'] if tier == 'quick' else list(CONTEXTS)
+        # a context the dialect cannot parse even around a bare operand (e.g. CASE in the sqlite dialect) is outside "accepted statements"
+        usable = []
+        for c in ctxs:
+            try:
+                real_shape(dname, 'a', c)
+                usable.append(c)
+            except Exception:
+                rep.census.setdefault('contexts_not_in_dialect', []).append(f'{dname}:{c}')
+        ctxs = usable
         kmax = 2 if tier == 'quick' else 3
         cases = []
         for k in range(1, kmax + 1):
